@@ -378,7 +378,7 @@ pub fn exec_spec(ctx: &mut Ctx, spec: &RunSpec, idx: u64) -> RunResult {
     };
     let clean = ctx.models.get(&fx).clean_cpu_ns;
     let limits = Limits::for_input(fx.bytes.len(), cpu_budget(clean) * ctx.cpu_scale);
-    let ex = execute(fx.bytes.clone(), spec.entry, spec.delivery.clone(), &spec.ops, limits, &ExecOpts { capture: true, stop_on_panic: true, probes: &[] });
+    let ex = execute(fx.bytes.clone(), spec.entry, spec.delivery.clone(), &spec.ops, limits, &ExecOpts { capture: true, stop_on_panic: true, probes: &[], record_kinds: false });
     let (violations, probes) = check(ctx, spec, &ex);
     let mut s = Sig::new();
     s.u(det_hash(&ex));
@@ -432,7 +432,7 @@ pub fn final_spec(ctx: &mut Ctx, idx: u64) -> RunSpec {
     let fx = ctx.fixture(&spec.file).unwrap();
     let clean = ctx.models.get(&fx).clean_cpu_ns;
     let limits = Limits::for_input(fx.bytes.len(), cpu_budget(clean) * ctx.cpu_scale);
-    let dry = execute(fx.bytes.clone(), spec.entry, spec.delivery.clone(), &spec.ops, limits, &ExecOpts { capture: true, stop_on_panic: true, probes: &[] });
+    let dry = execute(fx.bytes.clone(), spec.entry, spec.delivery.clone(), &spec.ops, limits, &ExecOpts { capture: true, stop_on_panic: true, probes: &[], record_kinds: false });
     let (v, _) = check(ctx, &spec, &dry);
     if !v.is_empty() {
         // the fault-free configuration already violates: report that, strictly
